@@ -145,6 +145,14 @@ func verifSubject(vm *Otto) (string, []uint16) {
 		vm.Set("s", s)
 		return s, refUnits(s)
 	}
+	if verifParam("astral", 0) == 3 {
+		// the fixed astral character followed by exactly one symbolic ASCII byte
+		suf := verifNondetString(1)
+		verifAssume(suf[0] < 0x80)
+		s := "\U0001F600" + suf
+		vm.Set("s", s)
+		return s, refUnits(s)
+	}
 	if verifParam("astral", 0) == 1 {
 		// 0..1 symbolic ASCII bytes, a fixed astral character (a surrogate pair
 		// in UTF-16), 0..1 symbolic ASCII bytes
